@@ -28,10 +28,12 @@ from vlib import Ctx, CorrResult, OracleResult, Failure, Disagreement, Hist
 
 PROPERTY = 'C05'
 MANIFEST = {
-    'text': 'Lean 4 theorems over EVERY finite sequence of authentication requests (any users, methods, valid or '
+    'text': 'Lean 4 theorems over EVERY finite sequence of authentication requests (any users; methods none, '
+            'password, password change, publickey probe/signed, hostbased, keyboard-interactive, unknown; valid or '
             'invalid credentials) interleaved in any way with the completions of the application\'s begin_auth and '
-            'validator awaitables (pipelining) and other messages: authenticated as u implies a successful '
-            'password/key check for u on this connection or that the application declared u needs none '
+            'validator awaitables (pipelining), method-specific messages (INFO_RESPONSE and others) and other '
+            'messages: authenticated as u implies a successful password / password-change / key / host-key+user / '
+            'keyboard-interactive check for u on this connection or that the application declared u needs none '
             '(auth_sound); with no acceptable credential for u no sequence authenticates as u '
             '(no_grant_by_sequencing); a signature not over this session id and this exact request never grants '
             '(bad_signature_never_grants); later requests are ignored then fatal (post_auth_requests); a valid '
@@ -39,15 +41,15 @@ MANIFEST = {
             'machine-checked witness of defect F1 (user switch under a pending validator). Tied to the code by a '
             'raw scripted client against a real server with controlled futures.',
     'note': 'signature verification is symbolic (sigOK decided by whether the harness signed session id + exact '
-            'request); keyboard-interactive, GSS and host-based methods are outside the model (kbd-int disabled in '
-            'the harness server); key/certificate option enforcement after success is exercised by the oracle only',
+            'request, for publickey and hostbased alike); GSS methods are outside the model (no gssapi here); '
+            'key/certificate option enforcement after success is exercised by the oracle only',
     'technique': 'Lean 4 proof by invariant over all event interleavings + scripted differential correspondence '
                  'with controlled application futures',
 }
 LEAN_PROPS = ['AsyncsshModel.Props.C05']
 DRIVER = 'Drivers/C05.lean'
 TRUSTED = ['ideal signatures: a key signs only what its holder signs']
-ASSUMPTIONS = ['the application\'s decisions are functions of (user, credential)', 'kbd-int/GSS/host-based not modelled']
+ASSUMPTIONS = ['the application\'s decisions are functions of (user, credential)', 'GSS methods not modelled']
 
 MSG_USERAUTH_REQUEST, MSG_GLOBAL_REQUEST = 50, 80
 ALGS = dict(encryption_algs=['chacha20-poly1305@openssh.com'], kex_algs=['curve25519-sha256'],
@@ -127,7 +129,10 @@ class AuthServer(asyncssh.SSHServer):
         return True
 
     def kbdint_auth_supported(self) -> bool:
-        return False
+        return True
+
+    def host_based_auth_supported(self) -> bool:
+        return True
 
     def public_key_auth_supported(self) -> bool:
         return True
@@ -138,7 +143,58 @@ class AuthServer(asyncssh.SSHServer):
         ok = (u, c) in self.app['pw']
         self.rec['calls'].append(('validate_password', u, c))
         fut = asyncio.get_event_loop().create_future()
-        self.rec['vals'].append((fut, ok, ('pw', u, c)))
+        if (u, c) in self.app.get('pwexp', []):
+            self.rec['vals'].append((fut, asyncssh.PasswordChangeRequired('expired'), ('pwexp', u, c)))
+        else:
+            self.rec['vals'].append((fut, ok, ('pw', u, c)))
+        return fut
+
+    def change_password(self, username: str, old_password: str, new_password: str) -> Any:
+        u = int(username[4:])
+        c = int(old_password[2:]) if old_password.startswith('pw') and old_password[2:].isdigit() else -1
+        self.rec['calls'].append(('change_password', u, c))
+        fut = asyncio.get_event_loop().create_future()
+        if (u, c) in self.app.get('chpwexp', []):
+            self.rec['vals'].append((fut, asyncssh.PasswordChangeRequired('expired'), ('chpwexp', u, c)))
+        else:
+            self.rec['vals'].append((fut, (u, c) in self.app.get('chpw', []), ('chpw', u, c)))
+        return fut
+
+    def validate_host_public_key(self, client_host: str, client_addr: str, client_port: int, key: Any) -> bool:
+        c = int(client_host[4:]) if client_host.startswith('host') and client_host[4:].isdigit() else -1
+        ok = c in self.app.get('hostkey', []) and key.public_data == keys()[c % len(keys())].public_data
+        self.rec['calls'].append(('validate_host_public_key', c, ok))
+        return ok
+
+    def validate_host_based_user(self, username: str, client_host: str, client_username: str) -> Any:
+        u = int(username[4:])
+        c = int(client_host[4:]) if client_host.startswith('host') and client_host[4:].isdigit() else -1
+        if client_username != 'cu%d' % c:
+            c = -1
+        self.rec['calls'].append(('validate_host_based_user', u, c))
+        fut = asyncio.get_event_loop().create_future()
+        self.rec['vals'].append((fut, (u, c) in self.app.get('hostuser', []), ('host', u, c)))
+        return fut
+
+    def _kbd_answer(self, a: int) -> Any:
+        return True if a == 1 else (('', 'more', 'en', (('Code:', False),)) if a == 2 else False)
+
+    def get_kbdint_challenge(self, username: str, lang: str, submethods: str) -> Any:
+        u = int(username[4:])
+        a = dict(self.app.get('kbd0', [])).get(u, 0)
+        self.rec['calls'].append(('get_kbdint_challenge', u))
+        fut = asyncio.get_event_loop().create_future()
+        self.rec['vals'].append((fut, self._kbd_answer(a), ('kbd', u, None, a == 1)))
+        return fut
+
+    def validate_kbdint_response(self, username: str, responses: Any) -> Any:
+        u = int(username[4:])
+        r = responses[0] if len(responses) == 1 else ''
+        c = int(r[1:]) if r.startswith('r') and r[1:].isdigit() else -1
+        a = {(x, y): z for x, y, z in self.app.get('kbd1', [])}.get((u, c), 0)
+        self.rec['calls'].append(('validate_kbdint_response', u, c))
+        fut = asyncio.get_event_loop().create_future()
+        self.rec['vals'].append((fut, self._kbd_answer(a), ('kbd', u, c, a == 1)))
         return fut
 
     def validate_public_key(self, username: str, key: Any) -> Any:
@@ -155,7 +211,14 @@ class AuthServer(asyncssh.SSHServer):
         self.rec['auth_completed'] = True
 
 
-def build_request(u: int, method: str, c: int, sid: bytes, rng: random.Random) -> Tuple[bytes, Dict[str, Any]]:
+PK_BAD = ['wrong-session-id', 'wrong-user', 'other-key', 'flipped-bit', 'empty', 'empty', 'one-byte', 'empty-inner',
+          'wrong-service-signed']
+HOST_BAD = ['wrong-session-id', 'wrong-user', 'other-key', 'flipped-bit', 'empty', 'empty', 'one-byte', 'empty-inner',
+            'wrong-client-host']
+
+
+def build_request(u: int, method: str, c: int, sid: bytes, rng: random.Random,
+                  forced: Optional[str] = None) -> Tuple[bytes, Dict[str, Any]]:
     user = S(b'user%d' % u)
     head = user + S(b'ssh-connection')
     info: Dict[str, Any] = {}
@@ -165,6 +228,42 @@ def build_request(u: int, method: str, c: int, sid: bytes, rng: random.Random) -
         return head + S(b'frobnicate') + b'\0\0\0\0', info
     if method == 'password':
         return head + S(b'password') + b'\0' + S(b'pw%d' % c), info
+    if method == 'pwchange':
+        return head + S(b'password') + b'\1' + S(b'pw%d' % c) + S(b'new%d' % c), info
+    if method == 'kbdint':
+        return head + S(b'keyboard-interactive') + S(b'') + S(b''), info
+    if method in ('hostsig1', 'hostsig0'):
+        hkey = keys()[c % len(keys())]
+        body = head + S(b'hostbased') + S(hkey.algorithm) + S(hkey.public_data) + S(b'host%d' % c) + S(b'cu%d' % c)
+        signed = S(sid) + bytes([MSG_USERAUTH_REQUEST]) + body
+        if method == 'hostsig0':
+            how = forced or rng.choice(HOST_BAD)
+            info['badsig'] = 'host:' + how
+            if how == 'wrong-session-id':
+                sig = hkey.sign(S(bytes(len(sid))) + bytes([MSG_USERAUTH_REQUEST]) + body, hkey.algorithm)
+            elif how == 'wrong-user':
+                other = S(b'user%d' % (u + 1)) + S(b'ssh-connection') + S(b'hostbased') + S(hkey.algorithm) + \
+                    S(hkey.public_data) + S(b'host%d' % c) + S(b'cu%d' % c)
+                sig = hkey.sign(S(sid) + bytes([MSG_USERAUTH_REQUEST]) + other, hkey.algorithm)
+            elif how == 'wrong-client-host':
+                other = head + S(b'hostbased') + S(hkey.algorithm) + S(hkey.public_data) + S(b'host%d' % (c + 1)) + \
+                    S(b'cu%d' % c)
+                sig = hkey.sign(S(sid) + bytes([MSG_USERAUTH_REQUEST]) + other, hkey.algorithm)
+            elif how == 'other-key':
+                sig = keys()[(c + 1) % len(keys())].sign(signed, hkey.algorithm)
+            elif how == 'empty':
+                sig = b''
+            elif how == 'one-byte':
+                sig = b'\0'
+            elif how == 'empty-inner':
+                sig = S(hkey.algorithm) + S(b'')
+            else:
+                good = bytearray(hkey.sign(signed, hkey.algorithm))
+                good[-1] ^= 1
+                sig = bytes(good)
+        else:
+            sig = hkey.sign(signed, hkey.algorithm)
+        return body + S(sig), info
     key = keys()[c % len(keys())]
     alg = key.algorithm
     blob = key.public_data
@@ -173,8 +272,7 @@ def build_request(u: int, method: str, c: int, sid: bytes, rng: random.Random) -
     body = head + S(b'publickey') + b'\1' + S(alg) + S(blob)
     signed = S(sid) + bytes([MSG_USERAUTH_REQUEST]) + body
     if method == 'pksig0':
-        how = rng.choice(['wrong-session-id', 'wrong-user', 'other-key', 'flipped-bit', 'empty', 'empty', 'one-byte',
-                          'empty-inner', 'wrong-service-signed'])
+        how = forced or rng.choice(PK_BAD)
         info['badsig'] = how
         if how == 'wrong-session-id':
             signed = S(bytes(len(sid))) + bytes([MSG_USERAUTH_REQUEST]) + body
@@ -209,7 +307,7 @@ async def run_script(app: Dict[str, Any], events: List[str], seed: int, settle_e
     with mock.patch.object(connmod.SSHClientConnection, 'try_next_auth', lambda self, **kw: None), \
             capture.PacketTap() as tap, capture.KeyTap() as kt:
         coro, s, hub = await pair.make_pair(server_factory=lambda: AuthServer(app, rec), connect=False,
-                                            server_opts=dict(**ALGS), client_opts=dict(**ALGS))
+                                            server_opts=dict(trust_client_host=True, **ALGS), client_opts=dict(**ALGS))
         task = asyncio.ensure_future(coro)
         c = None
         for _ in range(600):
@@ -256,7 +354,8 @@ async def run_script(app: Dict[str, Any], events: List[str], seed: int, settle_e
                 if getattr(c, '_auth', None) is None and not getattr(c, '_auth_complete', False):
                     c._auth = DummyAuth(c)
                 if parts[0] == 'req':
-                    payload, info = build_request(int(parts[1]), parts[2], int(parts[3]), sid, rng)
+                    payload, info = build_request(int(parts[1]), parts[2], int(parts[3]), sid, rng,
+                                                  parts[4] if len(parts) > 4 else None)
                     infos.append(info)
                     c.send_packet(MSG_USERAUTH_REQUEST, payload)
                 elif parts[0] == 'begin':
@@ -266,8 +365,18 @@ async def run_script(app: Dict[str, Any], events: List[str], seed: int, settle_e
                 elif parts[0] == 'val':
                     k = int(parts[1])
                     if k < len(rec['vals']) and not rec['vals'][k][0].done():
-                        rec['vals'][k][0].set_result(rec['vals'][k][1])
-                        rec.setdefault('completed_vals', []).append(rec['vals'][k][2] + (rec['vals'][k][1],))
+                        v = rec['vals'][k][1]
+                        if isinstance(v, Exception):
+                            rec['vals'][k][0].set_exception(v)
+                        else:
+                            rec['vals'][k][0].set_result(v)
+                        d = rec['vals'][k][2]
+                        rec.setdefault('completed_vals', []).append(
+                            d if d[0] == 'kbd' else d + ((v is True),))
+                elif parts[0] == 'info':
+                    c.send_packet(61, struct.pack('>I', 1) + S(b'r%d' % int(parts[1])))
+                elif parts[0] == 'authmsg':
+                    c.send_packet(62, b'')
                 elif parts[0] == 'other':
                     # the client's own send_packet would hold a connection-level message back until ITS view of
                     # authentication is complete; a hostile client does not, so lift that for this one packet
@@ -279,11 +388,11 @@ async def run_script(app: Dict[str, Any], events: List[str], seed: int, settle_e
                         c._auth_complete = saved
             except Exception as e:
                 out.setdefault('client_exc', []).append(type(e).__name__)
-            if settle_each:
+            if settle_each or (parts[0] == 'req' and parts[2].startswith('hostsig')):
                 await pair.settle(12)
         await pair.settle(25)
         replies = [p[0] for _q, p, _n in tap.recv.get(id(c), [])[recv0:]]
-        out['replies'] = ''.join({51: 'F', 52: 'S', 60: 'P'}.get(t, '') for t in replies)
+        out['replies'] = ''.join({51: 'F', 52: 'S', 60: 'P', 3: 'U'}.get(t, '') for t in replies)
         srv_user = s.get_extra_info('username')
         out['complete'] = (int(srv_user[4:]) if srv_user and srv_user.startswith('user') else None) \
             if rec['auth_completed'] else None
@@ -311,10 +420,22 @@ async def run_script(app: Dict[str, Any], events: List[str], seed: int, settle_e
 
 def gen_app(rng: random.Random) -> Dict[str, Any]:
     users = [1, 2, 3]
+    pairs = lambda lo, hi: sorted({(rng.choice(users), rng.randrange(3)) for _ in range(rng.randint(lo, hi))})  # noqa: E731
+    app = _gen_app_tables(rng, users, pairs)
+    if rng.random() < 0.7:
+        app['hostkey'] = sorted(set(app['hostkey']) | {c for _u, c in app['hostuser']})
+    return app
+
+
+def _gen_app_tables(rng: random.Random, users: List[int], pairs: Any) -> Dict[str, Any]:
     return {'async': rng.random() < 0.6, 'peruser': rng.random() < 0.5,
             'noauth': sorted(u for u in users if rng.random() < 0.1),
-            'pw': sorted({(rng.choice(users), rng.randrange(3)) for _ in range(rng.randint(0, 2))}),
-            'key': sorted({(rng.choice(users), rng.randrange(3)) for _ in range(rng.randint(0, 2))})}
+            'pw': pairs(0, 2), 'key': pairs(0, 2),
+            'pwexp': pairs(0, 1), 'chpw': pairs(0, 2), 'chpwexp': pairs(0, 1),
+            'hostkey': sorted({rng.randrange(3) for _ in range(rng.randint(0, 3))}), 'hostuser': pairs(0, 2),
+            'kbd0': sorted({u: rng.choice([0, 1, 2, 2]) for u in users if rng.random() < 0.7}.items()),
+            'kbd1': sorted((u, c, a) for (u, c), a in {(rng.choice(users), rng.randrange(3)): rng.choice([0, 1, 1, 2])
+                                                     for _ in range(rng.randint(0, 3))}.items())}
 
 
 def gen_events(rng: random.Random, app: Dict[str, Any]) -> List[str]:
@@ -324,8 +445,15 @@ def gen_events(rng: random.Random, app: Dict[str, Any]) -> List[str]:
         r = rng.random()
         if r < 0.55:
             u = rng.choice([1, 2, 3])
-            m = rng.choice(['none', 'password', 'password', 'pkprobe', 'pksig1', 'pksig0', 'unknown'])
+            m = rng.choice(['none', 'password', 'password', 'pkprobe', 'pksig1', 'pksig0', 'unknown', 'pwchange',
+                            'hostsig1', 'hostsig0', 'kbdint', 'kbdint'])
             c = rng.randrange(3)
+            if rng.random() < 0.5 and app.get('chpw') and m == 'pwchange':
+                u, c = rng.choice(app['chpw'])
+            if rng.random() < 0.6 and app.get('hostuser') and m.startswith('hostsig'):
+                u, c = rng.choice(app['hostuser'])
+            if m == 'kbdint':
+                c = 0
             if rng.random() < 0.5 and app['pw'] and m == 'password':
                 u, c = rng.choice(app['pw'])
             if rng.random() < 0.5 and app['key'] and m.startswith('pk'):
@@ -333,10 +461,16 @@ def gen_events(rng: random.Random, app: Dict[str, Any]) -> List[str]:
             evs.append(f'req:{u}:{m}:{c}')
             nb += 1
             nv += 1
-        elif r < 0.75 and nb:
+        elif r < 0.70 and nb:
             evs.append(f'begin:{rng.randrange(nb)}')
-        elif r < 0.95 and nv:
+        elif r < 0.86 and nv:
             evs.append(f'val:{rng.randrange(nv)}')
+        elif r < 0.94:
+            kb = [(u, c) for u, c, _a in app.get('kbd1', [])]
+            evs.append(f'info:{rng.choice(kb)[1] if kb and rng.random() < 0.7 else rng.randrange(3)}')
+            nv += 1
+        elif r < 0.96:
+            evs.append('authmsg')
         elif rng.random() < 0.3:
             evs.append('other')
     # let everything pending complete in some order at the end
@@ -347,6 +481,12 @@ def gen_events(rng: random.Random, app: Dict[str, Any]) -> List[str]:
 
 def model_line(app: Dict[str, Any], events: List[str], variant: str = 'new') -> str:
     f = lambda ps: ','.join(f'{a}:{b}' for a, b in ps) or '-'  # noqa: E731
+    if variant == 'new':
+        k1 = ','.join(f'{u}:{c}:{a}' for u, c, a in app.get('kbd1', [])) or '-'
+        return (f'run2 {1 if app["async"] else 0}{1 if app.get("peruser") else 0} {f([(u, 1) for u in app["noauth"]])} '
+                f'{f(app["pw"])} {f(app["key"])} {f(app.get("pwexp", []))} {f(app.get("chpw", []))} '
+                f'{f(app.get("chpwexp", []))} {f([(c, 1) for c in app.get("hostkey", [])])} {f(app.get("hostuser", []))} '
+                f'{f(app.get("kbd0", []))} {k1} ' + ' '.join(':'.join(e.split(':')[:4]) for e in events))
     return (f'run {variant} {1 if app["async"] else 0}{1 if app.get("peruser") else 0} {f([(u, 1) for u in app["noauth"]])} {f(app["pw"])} '
             f'{f(app["key"])} ' + ' '.join(events))
 
@@ -362,7 +502,25 @@ CORPUS = [
      ['req:1:password:1', 'req:2:pksig1:0', 'val:0', 'val:1']),
     ({'async': False, 'noauth': [], 'pw': [], 'key': [(1, 0)]},
      ['req:1:pkprobe:0', 'val:0', 'req:1:pksig0:0', 'val:1', 'req:1:pksig1:0', 'val:2', 'req:1:none:0', 'other', 'req:1:none:0']),
-] + [({'async': False, 'noauth': [], 'pw': [], 'key': [(1, 0)]}, ['req:1:pksig0:0', 'val:0']) for _ in range(12)]
+] + [({'async': False, 'noauth': [], 'pw': [], 'key': [(1, 0)]}, [f'req:1:pksig0:0:{how}', 'val:0'])
+     for how in sorted(set(PK_BAD))] + \
+    [({'async': False, 'noauth': [], 'pw': [], 'key': [], 'hostkey': [0], 'hostuser': [(1, 0)]},
+      [f'req:1:hostsig0:0:{how}', 'val:0', 'val:1']) for how in sorted(set(HOST_BAD))] + [
+    ({'async': True, 'noauth': [], 'pw': [], 'key': [], 'hostkey': [1], 'hostuser': [(2, 1)]},
+     ['req:2:hostsig1:1', 'begin:0', 'val:0']),
+    ({'async': False, 'noauth': [], 'pw': [], 'key': [], 'kbd0': [(1, 2)], 'kbd1': [(1, 2, 2), (1, 1, 1), (1, 0, 0)]},
+     ['req:1:kbdint:0', 'val:0', 'info:2', 'val:1', 'info:0', 'info:1', 'val:2', 'val:3']),     # second response cancels the first
+    ({'async': False, 'noauth': [], 'pw': [], 'key': [], 'kbd0': [(1, 0)], 'kbd1': [(1, 1, 1)]},
+     ['req:1:kbdint:0', 'info:1', 'val:0', 'val:1']),                                             # response before the challenge
+    ({'async': False, 'noauth': [], 'pw': [], 'key': [], 'kbd0': [(1, 2), (2, 2)], 'kbd1': [(1, 1, 1)]},
+     ['req:1:kbdint:0', 'val:0', 'info:1', 'req:2:kbdint:0', 'val:1', 'val:2']),                 # user switch under a pending response
+    ({'async': False, 'noauth': [], 'pw': [(3, 0)], 'key': [], 'pwexp': [(3, 0)], 'chpw': [(3, 1)], 'chpwexp': [(3, 2)]},
+     ['req:3:password:0', 'val:0', 'authmsg', 'req:3:pwchange:2', 'val:1', 'req:3:pwchange:1', 'val:2']),
+    ({'async': False, 'noauth': [], 'pw': [], 'key': [], 'kbd0': [(1, 2)], 'kbd1': [(1, 0, 0), (1, 1, 1)]},
+     ['req:1:kbdint:0', 'val:0', 'info:0', 'info:1', 'val:1', 'req:2:none:0', 'val:2']),       # superseded response must be dead
+    ({'async': False, 'noauth': [], 'pw': [], 'key': []}, ['info:0']),
+    ({'async': False, 'noauth': [], 'pw': [(1, 1)], 'key': []}, ['req:1:password:1', 'val:0', 'info:0']),
+]
 
 
 def correspondence(ctx: Ctx) -> CorrResult:
@@ -404,8 +562,20 @@ def granted(o: Dict[str, Any], u: int) -> bool:
     """the harness's own record: a successful check for u on this connection"""
     if u in o['app']['noauth']:
         return True
+    hostsigned = set()
+    for ev in o['events']:
+        p = ev.split(':')
+        if p[0] == 'req' and p[2] == 'hostsig1':
+            hostsigned.add((int(p[1]), int(p[3])))
     for kind, uu, c, ok in o['completed_vals']:
-        if uu == u and ok and kind == 'pw':
+        if uu == u and ok and kind == 'pw' and (u, c) in [tuple(x) for x in o['app']['pw']]:
+            return True
+        if uu == u and ok and kind == 'chpw' and (u, c) in [tuple(x) for x in o['app'].get('chpw', [])]:
+            return True
+        if uu == u and ok and kind == 'kbd':
+            return True       # the application itself answered True for this user
+        if uu == u and ok and kind == 'host' and (u, c) in hostsigned and c in o['app'].get('hostkey', []) and \
+                (u, c) in [tuple(x) for x in o['app'].get('hostuser', [])]:
             return True
     # key: an authorised key for u AND a request signed over this session id for u with that key
     signed_ok = set()
